@@ -2,6 +2,7 @@ import Grass.Extend
 import GrassProofs.Lemmas.SelSem
 import GrassProofs.Lemmas.SelWalk
 import GrassProofs.Lemmas.ExtSem
+import GrassProofs.Lemmas.ExtComplex
 import GrassProofs.C11
 /-
   C10 — @extend makes extenders match wherever the target matched, nothing else.
@@ -180,6 +181,272 @@ theorem C10_extendCompound_iff (sw : Switches) (hsw : sw.supAsFound = false) (e 
           simp only [List.any_cons] at this
           rw [this, ← hb]; rfl
         · subst hr; trivial
+
+/-! ### from compounds to complex selectors and lists -/
+
+/-- the alternatives `extend_complex` uses at one compound position -/
+def altsOf (sw : Switches) (e : Ext) (m : Option Nat) (io : Bool) (c : Compound) : Except XErr (List Complex × Bool) :=
+  match extendCompound sw [e] m io c with
+  | .error er => .error er
+  | .ok none => .ok ([[.compound c]], false)
+  | .ok (some ext) => .ok (ext, true)
+
+theorem extendCompound_shape (sw : Switches) (e : Ext) (m : Option Nat) (io : Bool) (c : Compound) (alts : List Complex)
+    (h : extendCompound sw [e] m io c = .ok (some alts)) : ∀ a ∈ alts, ∃ u, a = [Component.compound u] := by
+  unfold extendCompound at h
+  split at h
+  · cases h
+  · split at h
+    · split at h
+      · injection h with h; injection h with h; subst h
+        intro a ha; simp only [List.mem_map] at ha; obtain ⟨o, _, rfl⟩ := ha; exact ⟨_, rfl⟩
+      · cases h
+    · split at h
+      · injection h with h; injection h with h; subst h; intro a ha; simp at ha
+      · simp only at h
+        split at h
+        · injection h with h; injection h with h; subst h
+          intro a ha
+          simp only [List.mem_map] at ha
+          obtain ⟨x, hx, rfl⟩ := ha
+          have := trim_mem _ _ _ x hx
+          rcases List.mem_cons.1 this with e1 | h2
+          · subst e1; exact ⟨_, rfl⟩
+          · simp only [List.mem_map] at h2; obtain ⟨pu, _, rfl⟩ := h2; exact ⟨_, rfl⟩
+        · cases h
+
+theorem altsOf_sem (sw : Switches) (hsw : sw.supAsFound = false) (e : Ext) (hE : e.extender ≠ [])
+    (m : Option Nat) (io : Bool) (c : Compound) (alts : List Complex) (b : Bool)
+    (h : altsOf sw e m io c = .ok (alts, b)) :
+    (∀ a ∈ alts, ∃ u, a = [Component.compound u]) ∧
+    (∀ q, alts.any (matchesComplex · q) = credC e.extender e.target c q) ∧
+    (b = false → alts = [[.compound c]]) := by
+  unfold altsOf at h
+  cases hx : extendCompound sw [e] m io c with
+  | error er => rw [hx] at h; cases h
+  | ok r =>
+    rw [hx] at h
+    cases r with
+    | none =>
+      simp only at h
+      injection h with h; injection h with h1 h2; subst h1 h2
+      refine ⟨by intro a ha; simp only [List.mem_singleton] at ha; exact ⟨c, ha⟩, ?_, fun _ => rfl⟩
+      intro q
+      have := C10_extendCompound_iff sw hsw e hE m io c q
+      rw [hx] at this
+      simp only at this
+      simp [matchesComplex_single, this]
+    | some ext =>
+      simp only at h
+      injection h with h; injection h with h1 h2; subst h1 h2
+      refine ⟨extendCompound_shape sw e m io c ext hx, ?_, by intro hh; cases hh⟩
+      intro q
+      have := C10_extendCompound_iff sw hsw e hE m io c q
+      rw [hx] at this
+      exact this
+
+theorem complexChoices_cons_compound (sw : Switches) (e : Ext) (m : Option Nat) (io : Bool) (c : Compound)
+    (rest : Complex) (chs : List (List Complex)) (any : Bool)
+    (h : complexChoices sw [e] m io (.compound c :: rest) = .ok (chs, any)) :
+    ∃ alts b chs' any', altsOf sw e m io c = .ok (alts, b) ∧ complexChoices sw [e] m io rest = .ok (chs', any') ∧
+      chs = alts :: chs' ∧ any = (b || any') := by
+  unfold complexChoices at h
+  unfold altsOf
+  cases hx : extendCompound sw [e] m io c with
+  | error er => rw [hx] at h; simp at h
+  | ok r =>
+    rw [hx] at h
+    cases hr : complexChoices sw [e] m io rest with
+    | error er => rw [hr] at h; cases r <;> simp at h
+    | ok v =>
+      obtain ⟨chs', any'⟩ := v
+      rw [hr] at h
+      cases r with
+      | none =>
+        simp only at h
+        injection h with h; injection h with h1 h2; subst h1 h2
+        exact ⟨_, _, _, _, rfl, rfl, rfl, by simp⟩
+      | some ext =>
+        simp only at h
+        injection h with h; injection h with h1 h2; subst h1 h2
+        exact ⟨_, _, _, _, rfl, rfl, rfl, by simp⟩
+
+theorem complexChoices_cons_comb (sw : Switches) (e : Ext) (m : Option Nat) (io : Bool) (cb : Comb)
+    (rest : Complex) (chs : List (List Complex)) (any : Bool)
+    (h : complexChoices sw [e] m io (.comb cb :: rest) = .ok (chs, any)) :
+    ∃ chs', complexChoices sw [e] m io rest = .ok (chs', any) ∧ chs = [[.comb cb]] :: chs' := by
+  unfold complexChoices at h
+  cases hr : complexChoices sw [e] m io rest with
+  | error er => rw [hr] at h; simp at h
+  | ok v =>
+    obtain ⟨chs', any'⟩ := v
+    rw [hr] at h
+    simp only at h
+    injection h with h; injection h with h1 h2; subst h1 h2
+    exact ⟨_, rfl, rfl⟩
+
+/-- **complex level** (anchored form): some choice of alternatives matches with its leftmost compound
+    at `q` iff the original complex matches there with credited compounds -/
+theorem complexChoices_sem (sw : Switches) (hsw : sw.supAsFound = false) (e : Ext) (hE : e.extender ≠ [])
+    (m : Option Nat) (io : Bool) :
+    ∀ (n : Nat) (X : Complex), X.length ≤ n → ∀ (chs : List (List Complex)) (any : Bool),
+      complexChoices sw [e] m io X = .ok (chs, any) →
+      (∀ q p, (∃ path, Pick path chs ∧ GLX mComp (path.flatMap id) q p) ↔ GLX (credC e.extender e.target) X q p) ∧
+      (any = false → chs = X.map fun cp => [[cp]]) := by
+  intro n
+  induction n with
+  | zero =>
+    intro X hl chs any h
+    have : X = [] := List.eq_nil_of_length_eq_zero (Nat.le_zero.1 hl)
+    subst this
+    simp only [complexChoices] at h
+    injection h with h; injection h with h1 h2; subst h1 h2
+    refine ⟨?_, fun _ => rfl⟩
+    intro q p
+    constructor
+    · rintro ⟨path, hp, hg⟩
+      cases path with
+      | nil => simp [GLX] at hg
+      | cons _ _ => exact hp.elim
+    · intro hg; simp [GLX] at hg
+  | succ n ih =>
+    intro X hl chs any h
+    match X, hl, h with
+    | [], _, h =>
+      simp only [complexChoices] at h
+      injection h with h; injection h with h1 h2; subst h1 h2
+      refine ⟨?_, fun _ => rfl⟩
+      intro q p
+      constructor
+      · rintro ⟨path, hp, hg⟩
+        cases path with
+        | nil => simp [GLX] at hg
+        | cons _ _ => exact hp.elim
+      · intro hg; simp [GLX] at hg
+    | .comb cb :: rest, hl, h =>
+      obtain ⟨chs', hr, rfl⟩ := complexChoices_cons_comb sw e m io cb rest chs any h
+      have hlen : rest.length ≤ n := by simp only [List.length_cons] at hl; omega
+      have ih' := ih rest hlen chs' any hr
+      refine ⟨?_, ?_⟩
+      · intro q p
+        constructor
+        · rintro ⟨path, hp, hg⟩
+          cases path with
+          | nil => exact hp.elim
+          | cons a path' =>
+            have ha : a = [Component.comb cb] := by simpa using hp.1
+            subst ha
+            simp [GLX] at hg
+        · intro hg; simp [GLX] at hg
+      · intro ha; rw [ih'.2 ha]; rfl
+    | [.compound c], _, h =>
+      obtain ⟨alts, b, chs', any', ha, hr, rfl, rfl⟩ := complexChoices_cons_compound sw e m io c [] chs any h
+      simp only [complexChoices] at hr
+      injection hr with hr; injection hr with h1 h2; subst h1 h2
+      obtain ⟨hshape, hsem, hnone⟩ := altsOf_sem sw hsw e hE m io c alts b ha
+      refine ⟨?_, ?_⟩
+      · intro q p
+        simp only [GLX]
+        constructor
+        · rintro ⟨path, hp, hg⟩
+          match path, hp, hg with
+          | [a], hp, hg =>
+            obtain ⟨u, rfl⟩ := hshape a hp.1
+            simp only [List.flatMap_cons, List.flatMap_nil, List.append_nil, id, GLX] at hg
+            refine ⟨hg.1, ?_⟩
+            rw [← hsem p, List.any_eq_true]
+            exact ⟨_, hp.1, by rw [matchesComplex_single]; exact hg.2⟩
+          | [], hp, _ => exact hp.elim
+          | _ :: _ :: _, hp, _ => exact hp.2.elim
+        · rintro ⟨rfl, hc⟩
+          rw [← hsem q, List.any_eq_true] at hc
+          obtain ⟨a, ha', hm⟩ := hc
+          obtain ⟨u, rfl⟩ := hshape a ha'
+          refine ⟨[[.compound u]], ⟨ha', trivial⟩, ?_⟩
+          simp only [List.flatMap_cons, List.flatMap_nil, List.append_nil, id, GLX]
+          exact ⟨rfl, by rw [matchesComplex_single] at hm; exact hm⟩
+      · intro hb
+        simp only [Bool.or_false] at hb
+        rw [hnone hb]; rfl
+    | .compound c :: .comb cb :: rest, hl, h =>
+      obtain ⟨alts, b, chs1, any1, ha, hr1, rfl, rfl⟩ := complexChoices_cons_compound sw e m io c _ chs any h
+      obtain ⟨chs', hr, rfl⟩ := complexChoices_cons_comb sw e m io cb rest chs1 any1 hr1
+      have hlen : rest.length ≤ n := by simp only [List.length_cons] at hl; omega
+      have ih' := ih rest hlen chs' any1 hr
+      obtain ⟨hshape, hsem, hnone⟩ := altsOf_sem sw hsw e hE m io c alts b ha
+      refine ⟨?_, ?_⟩
+      · intro q p
+        simp only [GLX]
+        constructor
+        · rintro ⟨path, hp, hg⟩
+          match path, hp, hg with
+          | a :: a2 :: path', hp, hg =>
+            obtain ⟨u, rfl⟩ := hshape a hp.1
+            have ha2 : a2 = [Component.comb cb] := by simpa using hp.2.1
+            subst ha2
+            simp only [List.flatMap_cons, id, List.singleton_append, GLX] at hg
+            obtain ⟨hu, q2, hq2, hrest⟩ := hg
+            refine ⟨?_, q2, hq2, (ih'.1 q2 p).1 ⟨path', hp.2.2, hrest⟩⟩
+            rw [← hsem q, List.any_eq_true]
+            exact ⟨_, hp.1, by rw [matchesComplex_single]; exact hu⟩
+          | [], hp, _ => exact hp.elim
+          | [_], hp, _ => exact hp.2.elim
+        · rintro ⟨hc, q2, hq2, hrest⟩
+          rw [← hsem q, List.any_eq_true] at hc
+          obtain ⟨a, ha', hm⟩ := hc
+          obtain ⟨u, rfl⟩ := hshape a ha'
+          obtain ⟨path', hp', hg'⟩ := (ih'.1 q2 p).2 hrest
+          refine ⟨[.compound u] :: [.comb cb] :: path', ⟨ha', by simp, hp'⟩, ?_⟩
+          simp only [List.flatMap_cons, id, List.singleton_append, GLX]
+          exact ⟨by rw [matchesComplex_single] at hm; exact hm, q2, hq2, hg'⟩
+      · intro hb
+        have hb' : b = false ∧ any1 = false := by cases b <;> cases any1 <;> simp_all
+        rw [hnone hb'.1, ih'.2 hb'.2]; rfl
+    | .compound c :: .compound d :: rest, hl, h =>
+      obtain ⟨alts, b, chs1, any1, ha, hr1, rfl, rfl⟩ := complexChoices_cons_compound sw e m io c _ chs any h
+      have hlen : (Component.compound d :: rest).length ≤ n := by simp only [List.length_cons] at hl ⊢; omega
+      have ih' := ih _ hlen chs1 any1 hr1
+      obtain ⟨altsd, bd, chs2, any2, had, _, hchs1, _⟩ := complexChoices_cons_compound sw e m io d _ chs1 any1 hr1
+      obtain ⟨hshaped, _, _⟩ := altsOf_sem sw hsw e hE m io d altsd bd had
+      obtain ⟨hshape, hsem, hnone⟩ := altsOf_sem sw hsw e hE m io c alts b ha
+      refine ⟨?_, ?_⟩
+      · intro q p
+        simp only [GLX]
+        constructor
+        · rintro ⟨path, hp, hg⟩
+          match path, hp, hg with
+          | a :: path1, hp, hg =>
+            obtain ⟨u, rfl⟩ := hshape a hp.1
+            have hp1 := hp.2
+            rw [hchs1] at hp1
+            match path1, hp1, hp, hg with
+            | a' :: path2, hp1, hp, hg =>
+              obtain ⟨u', rfl⟩ := hshaped a' hp1.1
+              simp only [List.flatMap_cons, id, List.singleton_append, GLX] at hg
+              obtain ⟨hu, q2, hq2, hrest⟩ := hg
+              refine ⟨?_, q2, hq2, (ih'.1 q2 p).1 ⟨[.compound u'] :: path2, hp.2, ?_⟩⟩
+              · rw [← hsem q, List.any_eq_true]
+                exact ⟨_, hp.1, by rw [matchesComplex_single]; exact hu⟩
+              · simpa only [List.flatMap_cons, id, List.singleton_append] using hrest
+            | [], hp1, _, _ => exact hp1.elim
+          | [], hp, _ => exact hp.elim
+        · rintro ⟨hc, q2, hq2, hrest⟩
+          rw [← hsem q, List.any_eq_true] at hc
+          obtain ⟨a, ha', hm⟩ := hc
+          obtain ⟨u, rfl⟩ := hshape a ha'
+          obtain ⟨path1, hp1, hg1⟩ := (ih'.1 q2 p).2 hrest
+          have hp1' := hp1
+          rw [hchs1] at hp1'
+          match path1, hp1', hp1, hg1 with
+          | a' :: path2, hp1', hp1, hg1 =>
+            obtain ⟨u', rfl⟩ := hshaped a' hp1'.1
+            refine ⟨[.compound u] :: [.compound u'] :: path2, ⟨ha', hp1⟩, ?_⟩
+            simp only [List.flatMap_cons, id, List.singleton_append, GLX] at hg1 ⊢
+            exact ⟨by rw [matchesComplex_single] at hm; exact hm, q2, hq2, hg1⟩
+          | [], hp1', _, _ => exact hp1'.elim
+      · intro hb
+        have hb' : b = false ∧ any1 = false := by cases b <;> cases any1 <;> simp_all
+        rw [hnone hb'.1, ih'.2 hb'.2]; rfl
 
 /-! ### placeholders -/
 
